@@ -520,6 +520,15 @@ func (e *Engine) indexObligation(fr *frame, st *State, in ssa.Instruction, x, id
 	}
 	e.oblige(fr, "B-IDX", in, "0<=i", lo, "index must be non-negative")
 	e.oblige(fr, "B-IDX", in, "i<len", hi, fmt.Sprintf("index %s must be < length %s", e.linStr(st.Subst(i)), e.linStr(st.Subst(n))))
+	if e.AssumeAfterCheck && !i.Bad {
+		// execution continues only if the index was in range
+		if !lo {
+			st.Assume(i)
+		}
+		if !hi && !n.Bad {
+			st.Assume(n.Sub(i).AddConst(-1))
+		}
+	}
 }
 
 func (e *Engine) sliceInstr(fr *frame, st *State, x *ssa.Slice) {
@@ -702,6 +711,15 @@ func (e *Engine) unop(fr *frame, st *State, x *ssa.UnOp) {
 func (e *Engine) bindChecked(st *State, x ssa.Value, v Lin) bool {
 	a := e.atomOf(x)
 	r := typeRange(x.Type())
+	if in, ok := x.(ssa.Instruction); ok && e.Defer != nil {
+		if g, ok := e.Defer[e.narrowKey(in)]; ok {
+			if v.Bad {
+				st.Forget(g)
+			} else {
+				st.Bind(g, v)
+			}
+		}
+	}
 	fits := !v.Bad
 	if fits && r.HasLo && !st.Entails(v.AddConst(-r.Lo)) {
 		fits = false
@@ -712,6 +730,17 @@ func (e *Engine) bindChecked(st *State, x ssa.Value, v Lin) bool {
 	// 64-bit types (no HasHi): the analysis assumes that arithmetic on values
 	// derived from lengths and small counters does not overflow 2^63 (stated
 	// in every evidence file); only the unsigned lower bound is checked.
+	if in, ok := x.(ssa.Instruction); ok && !fits && !v.Bad && r.HasHi && e.AssumeNoWrap[in.Parent()] {
+		// client-stated domain assumption: arithmetic of this function does not wrap
+		if r.HasLo {
+			st.Assume(v.AddConst(-r.Lo))
+		}
+		st.Assume(Const(r.Hi).Sub(v))
+		fits = true
+		if e.Checking() {
+			e.AssumedNoWrap[in]++
+		}
+	}
 	if in, ok := x.(ssa.Instruction); ok && e.Checking() && r.HasHi {
 		w := e.Wraps[in]
 		w[0]++
@@ -719,6 +748,7 @@ func (e *Engine) bindChecked(st *State, x ssa.Value, v Lin) bool {
 			w[1]++
 		}
 		e.Wraps[in] = w
+		e.noteCtx(in, fits, 0)
 	}
 	if fits {
 		st.Bind(a, v)
@@ -770,6 +800,9 @@ func (e *Engine) binop(fr *frame, st *State, x *ssa.BinOp) {
 		}
 		return
 	}
+	if e.BinOpHook != nil && fr != nil && fr.check {
+		e.BinOpHook(e, st, x)
+	}
 	a, b := e.expr(st, x.X), e.expr(st, x.Y)
 	switch x.Op {
 	case token.ADD:
@@ -817,6 +850,10 @@ func (e *Engine) binop(fr *frame, st *State, x *ssa.BinOp) {
 		case sa.IsConst() && sa.C >= 0:
 			e.andConst(st, x, b, sa.C)
 		default:
+			if e.Checking() {
+				// a mask whose width is not a constant here: lossy unless one side is entailed below the other
+				e.noteCtx(x, st.Entails(b.Sub(a)) || st.Entails(a.Sub(b)), -1)
+			}
 			ra, rb := st.Bounds(a), st.Bounds(b)
 			r := Range{Lo: 0, HasLo: ra.HasLo && ra.Lo >= 0 || rb.HasLo && rb.Lo >= 0}
 			if ra.HasLo && ra.Lo >= 0 && ra.HasHi {
@@ -901,6 +938,15 @@ func (e *Engine) freshBounded(st *State, x ssa.Value, r Range) {
 func (e *Engine) divmod(st *State, x ssa.Value, a Lin, c int64, rem bool) {
 	v := e.atomOf(x)
 	st.Forget(v)
+	if sa := st.Subst(a); sa.IsConst() && sa.C >= 0 && c > 0 {
+		// constant folding (non-negative dividend: Go's truncated division = floor)
+		if rem {
+			st.Bind(v, Const(sa.C%c))
+		} else {
+			st.Bind(v, Const(sa.C/c))
+		}
+		return
+	}
 	if c == 1 {
 		if rem {
 			st.Bind(v, Const(0))
@@ -933,7 +979,22 @@ func (e *Engine) divmod(st *State, x ssa.Value, a Lin, c int64, rem bool) {
 
 func (e *Engine) andConst(st *State, x ssa.Value, a Lin, mask int64) {
 	if mask+1 > 0 && (mask+1)&mask == 0 && st.Entails(a) { // low-bit mask on a non-negative value = a % (mask+1)
-		if st.Entails(Const(mask).Sub(a)) {
+		fits := st.Entails(Const(mask).Sub(a))
+		if in, ok := x.(ssa.Instruction); ok && e.Defer != nil {
+			if g, ok := e.Defer[e.narrowKey(in)]; ok {
+				st.Bind(g, a)
+			}
+		}
+		if in, ok := x.(ssa.Instruction); ok && e.Checking() {
+			m := e.Masks[in]
+			m[0]++
+			if !fits {
+				m[1]++
+			}
+			e.Masks[in] = m
+			e.noteCtx(in, fits, mask)
+		}
+		if fits {
 			e.bindChecked(st, x, a)
 			return
 		}
@@ -970,6 +1031,9 @@ func (e *Engine) boolBinop(st *State, x *ssa.BinOp) {
 func (e *Engine) convert(fr *frame, st *State, x *ssa.Convert) {
 	switch {
 	case isInt(x.Type()) && isInt(x.X.Type()):
+		if e.ConvertHook != nil && fr != nil && fr.check {
+			e.ConvertHook(e, st, x)
+		}
 		e.bindChecked(st, x, e.expr(st, x.X))
 	case isSliceLike(x.Type()) && isSliceLike(x.X.Type()):
 		// string <-> []byte: same length, fresh memory
